@@ -14,6 +14,7 @@ FAMS = [
 ]
 ALL_OPS = ["restrict", "insert_misc", "group", "group_ns", "group_obj", "group_free", "allow", "add_info", "set_subtype", "refresh",
            "dist_add", "dist_remove", "memattr", "cpukind", "cpukind_info"]
+STORE_OPS = ["restrict", "dist_add", "dist_remove", "memattr", "cpukind", "cpukind_info", "insert_misc", "add_info", "set_subtype", "group"]   # C05: what fills the stores, then a restrict
 STRUCT_OPS = ["restrict", "insert_misc", "group", "group_ns", "group_obj"]           # focused configuration: what reshapes the tree, one call deeper
 # load-time configurations: (name, lines)
 LOADCFG = [
@@ -42,18 +43,19 @@ def prepass(ctx, exe):
         pus = sorted(o["os"] for o in t["objs"] if o["type"] == 4)
         nodes = {}
         gps = {}
-        d1, tops = [], []
+        d1, tops, gpcs = [], [], {}
         for o in t["objs"]:
             gps.setdefault(o["type"], []).append(o["gp"])
             cs = set()
             for lo, hi in o["cs"]:
                 cs.update(range(lo, hi + 1))
+            gpcs[o["gp"]] = sorted(cs)
             if o["type"] == 14:
                 nodes[o["os"]] = sorted(cs)
             if o["depth"] == 1:
                 d1.append(o["gp"])
                 tops.append(sorted(cs))
-        info[name] = {"pus": pus, "nodes": nodes, "gps": gps, "depth1": d1, "tops": tops}
+        info[name] = {"pus": pus, "nodes": nodes, "gps": gps, "depth1": d1, "tops": tops, "gpcs": gpcs}
     return info
 
 
@@ -74,16 +76,17 @@ def mc_module(info, choices, rflags):
     nodes = info["nodes"]
     nc = "[n \\in {%s} |-> CASE %s]" % (", ".join(map(str, sorted(nodes))),
                                          " [] ".join("n = %d -> {%s}" % (n, ", ".join(map(str, cs))) for n, cs in sorted(nodes.items())))
-    return ("---- MODULE MC_TopoOps_gen ----\nEXTENDS MC_TopoOps\nGPUs == {%s}\nGNodes == {%s}\nGNodeCpus == %s\nGSets == <<%s>>\nGRFlags == {%s}\nGTops == <<%s>>\n"
-            "GOpsAll == {%s}\nGOpsStruct == {%s}\n====\n"
+    return ("---- MODULE MC_TopoOps_gen ----\nEXTENDS MC_TopoOps\nGPUs == {%s}\nGNodes == {%s}\nGNodeCpus == %s\nGSets == <<%s>>\nGRFlags == {%s}\nGTops == <<%s>>\nGShapePUs == <<%s>>\n"
+            "GOpsAll == {%s}\nGOpsStruct == {%s}\nGOpsStores == {%s}\n====\n"
             % (", ".join(map(str, info["pus"])), ", ".join(map(str, sorted(nodes))), nc,
                ", ".join(c08.tla_ranges(c) for c in choices), ", ".join(map(str, rflags)),
                ", ".join("{%s}" % ", ".join(map(str, t)) for t in info["tops"]),
-               ", ".join('"%s"' % o for o in ALL_OPS), ", ".join('"%s"' % o for o in STRUCT_OPS)))
+               ", ".join("<<%s>>" % ", ".join("{%s}" % ", ".join(map(str, info["gpcs"][g])) for g in dist_objs(info, sh)) for sh in (1, 2, 3, 4)),
+               ", ".join('"%s"' % o for o in ALL_OPS), ", ".join('"%s"' % o for o in STRUCT_OPS), ", ".join('"%s"' % o for o in STORE_OPS)))
 
 
 def mc_cfg(maxsteps, two, nstripes, stripe, simlen, bfs, ops="GOpsAll", lean=False):
-    s = ("SPECIFICATION Spec\nCONSTANTS\n  PUs <- GPUs\n  Nodes <- GNodes\n  NodeCpus <- GNodeCpus\n  SetChoices <- GSets\n  RestrictFlags <- GRFlags\n  Tops <- GTops\n  Ops <- %s\n  Lean = %s\n"
+    s = ("SPECIFICATION Spec\nCONSTANTS\n  PUs <- GPUs\n  Nodes <- GNodes\n  NodeCpus <- GNodeCpus\n  SetChoices <- GSets\n  RestrictFlags <- GRFlags\n  Tops <- GTops\n  ShapePUs <- GShapePUs\n  Ops <- %s\n  Lean = %s\n"
          "  Objs = 6\n  MaxSteps = %d\n  TwoSlots = %s\n  NStripes = %d\n  Stripe = %d\n  SimLen = %d\nVIEW StateView\nCHECK_DEADLOCK FALSE\n"
          % (ops, "TRUE" if lean else "FALSE", maxsteps, "TRUE" if two else "FALSE", nstripes, stripe, simlen))
     if bfs:
@@ -197,10 +200,21 @@ def prio_two(sig):
     return 2
 
 
+def prio_stores(sig):
+    """C05: a successful restrict right after a call that fills a store (what the exporter must refresh) comes first"""
+    if len(sig) >= 2 and sig[-1][0] == "restrict" and sig[-1][2] >= 100:
+        return 0          # the restrict cuts into the distances structure added before
+    if len(sig) >= 2 and sig[-1][0] == "restrict" and sig[-1][2] != -1 and sig[-2][0] in ("memattr", "cpukind", "cpukind_info"):
+        return 0
+    if sig[-1][0] in ("dist_add", "memattr", "cpukind", "cpukind_info", "dist_remove"):
+        return 1
+    return 2
+
+
 def prio_struct(sig):
     """one topology: a restrict that may merge levels (one subtree left) after the tree was reshaped comes first"""
     last = sig[-1]
-    if last[0] == "restrict" and last[2] in (1, 11) and any(x[0] != "restrict" for x in sig[:-1]):
+    if last[0] == "restrict" and last[2] % 100 in (1, 11) and any(x[0] != "restrict" for x in sig[:-1]):
         return 0
     if last[0] == "restrict" and last[2] != -1:
         return 1
